@@ -14,6 +14,12 @@ RULE = ("random scenes with partial coverage (sloped grid polygons, masks with r
 def concrete(sr, i, k, c, op):
     if c.get("formula", 0) > 0:
         return "a pixel's new value is not the blend formula of its own inputs for any coverage"
+    if op.split()[0] == "clear" and k < len(sr.impl[i]) and k < len(sr.model[i]) and not sr.model[i][k].panic:
+        if sr.impl[i][k].panic:
+            return "clear() panicked instead of giving the pixels inside the clip the requested colour"
+        a, b = sr.impl[i][k].parse(), sr.model[i][k].parse()
+        if a["surface"] != b["surface"] or (a["layer"] or [None, None])[1] != (b["layer"] or [None, None])[1]:
+            return "clear() did not give exactly the requested colour to exactly the pixels inside the clip (coverage and source are given)"
     if c.get("frame", 0) > 0:
         # coverage (or clip coverage) zero: the formula leaves the pixel as it was
         return "a pixel with zero coverage changed: its new value is not the formula of its own inputs"
